@@ -32,8 +32,11 @@ for sid in sorted(os.listdir(f"{ROOT}/seeded")):
             rc, out = sh(f"VERIF_SKIP_ALT=1 ./check {cid} {tier}", ROOT)
             if rc == 0:
                 rc, out = sh(f"./check {cid} {tier}", ROOT)
-            first = next((l for l in out.splitlines() if l.startswith("FAIL ")), "")
-            caught[cid] = {"exit": rc, "first_failure": first[:300]}
+            fails = [l for l in out.splitlines() if l.startswith("FAIL ")]
+            # prefer what the search itself found over the replay of a regression input saved earlier
+            first = next((l for l in fails if " part=" in l), fails[0] if fails else "")
+            by_search = any(" part=" in l for l in fails)
+            caught[cid] = {"exit": rc, "first_failure": first[:300], "found_by_search": by_search}
             # keep the shrunk counterexample as a committed regression input of that property
             if rc == 1:
                 for l in out.splitlines():
@@ -57,13 +60,23 @@ for sid in sorted(os.listdir(f"{ROOT}/seeded")):
     json.dump(meta, open(f"{d}/meta.json", "w"), indent=1)
     rows.append((sid, caught))
 # matrix
-lines = ["# Seeded changes x checks (exit 1 = VIOLATION reported, 0 = missed, 2 = inconclusive)", "", "| seeded change | own property check | other checks that also report it |", "|---|---|---|"]
+lines = ["# Seeded changes x checks (exit 1 = VIOLATION reported, 0 = missed, 2 = inconclusive)", "",
+         "Own-property column: `./check <own id> quick` with the change applied (waves 3-5: applied to /repo itself by tools/seed_matrix.py;",
+         "waves 1-2: in scratch worktrees by tools/seed_matrix_par.py, same sources and commands). 'search' = a part of the check found it in this run;",
+         "'regression input' = only the replay of the counterexample saved by an earlier matrix run failed (the search did not hit it again in this run).", "",
+         "| seeded change | own property check | reported through | other checks that also report it | note |", "|---|---|---|---|---|"]
+tot = {"caught": 0, "missed": 0, "other": 0}
 for sid in sorted(os.listdir(f"{ROOT}/seeded")):
     p = f"{ROOT}/seeded/{sid}/meta.json"
     if not os.path.exists(p) or sid.startswith("_"): continue
     m = json.load(open(p)); pid = sid[:3]
     runs = m.get("checks_run", {})
     own = "; ".join(f"{t}: exit {v[pid]['exit']}" for t, v in runs.items() if pid in v)
+    q = runs.get("quick", {}).get(pid, {})
+    through = "" if q.get("exit") != 1 else ("search" if q.get("found_by_search", " part=" in q.get("first_failure", "")) else "regression input")
     others = sorted({c for t in runs.values() for c, v in t.items() if c != pid and v["exit"] == 1})
-    lines.append(f"| {sid} | {own} | {', '.join(others)} |")
+    note = m.get("known_miss", "")[:90] or m.get("matrix_note", "")
+    tot["caught" if q.get("exit") == 1 else "missed" if q.get("exit") == 0 else "other"] += 1
+    lines.append(f"| {sid} | {own} | {through} | {', '.join(others)} | {note} |")
+lines += ["", f"Totals (quick tier, own property): reported {tot['caught']}, not reported {tot['missed']}, inconclusive/not run {tot['other']}."]
 open(f"{ROOT}/seeded/MATRIX.md", "w").write("\n".join(lines) + "\n")
